@@ -576,15 +576,16 @@ pub unsafe extern "C" fn getrandom(buf: *mut libc::c_void, buflen: usize, flags:
 // ---------------------------------------------------------------------------------------------
 
 thread_local! {
-    /// Some((base_ns, reads)) while the current thread is a simulated party
+    /// Some((now_ns, step_ns)) while the current thread is a simulated party
     static PARTY_CLOCK: std::cell::Cell<Option<(u64, u64)>> = const { std::cell::Cell::new(None) };
 }
 pub static CLOCK_READS_IN_PARTIES: AtomicU64 = AtomicU64::new(0);
 
 /// Enter party time: the thread's clocks start at `base_ns` (derived from the party's keys, so two
-/// parties never agree on the time) and advance 1 microsecond per reading.
-pub fn enter_party_clock(base_ns: u64) {
-    let _ = PARTY_CLOCK.try_with(|c| c.set(Some((base_ns, 0))));
+/// parties never agree on the time) and advance `step_ns` per reading: 1 microsecond for a fast
+/// machine, up to a minute for a slow, stalled or clock-jumping one.
+pub fn enter_party_clock(base_ns: u64, step_ns: u64) {
+    let _ = PARTY_CLOCK.try_with(|c| c.set(Some((base_ns, step_ns.max(1)))));
 }
 
 pub fn leave_party_clock() {
@@ -593,11 +594,11 @@ pub fn leave_party_clock() {
 
 #[no_mangle]
 pub unsafe extern "C" fn clock_gettime(clk: libc::clockid_t, ts: *mut libc::timespec) -> i32 {
-    if let Ok(Some((base, n))) = PARTY_CLOCK.try_with(|c| c.get()) {
-        let _ = PARTY_CLOCK.try_with(|c| c.set(Some((base, n + 1))));
+    if let Ok(Some((now, step))) = PARTY_CLOCK.try_with(|c| c.get()) {
+        let _ = PARTY_CLOCK.try_with(|c| c.set(Some((now.saturating_add(step), step))));
         CLOCK_READS_IN_PARTIES.fetch_add(1, Ordering::Relaxed);
         if !ts.is_null() {
-            let t = base + n * 1_000;
+            let t = now;
             (*ts).tv_sec = (t / 1_000_000_000) as libc::time_t;
             (*ts).tv_nsec = (t % 1_000_000_000) as libc::c_long;
         }
@@ -713,7 +714,7 @@ pub fn liveness_selftest() -> Result<(), String> {
     }
     // 3c. clock seam: inside a party the clocks are simulated, outside they are real
     let real0 = std::time::SystemTime::now().duration_since(std::time::UNIX_EPOCH).map(|d| d.as_secs()).unwrap_or(0);
-    enter_party_clock(1_234_567_000_000_000);
+    enter_party_clock(1_234_567_000_000_000, 1_000);
     let sim = std::time::SystemTime::now().duration_since(std::time::UNIX_EPOCH).map(|d| d.as_secs()).unwrap_or(0);
     let i0 = std::time::Instant::now();
     let i1 = std::time::Instant::now();
